@@ -25,6 +25,7 @@ type sigSpec struct {
 	Locked  bool
 	State   string
 	Members int
+	PathID  int // signatures with the same non-zero PathID share their source paths (equal stacks when frames and arguments agree)
 }
 
 func (s sigSpec) String() string {
@@ -47,6 +48,9 @@ func (s sigSpec) String() string {
 // different universe entries dissimilar without being visible to the ordering).
 func goroutinesOf(s sigSpec, uniq int, firstID int) []*stack.Goroutine {
 	var out []*stack.Goroutine
+	if s.PathID != 0 {
+		uniq = s.PathID
+	}
 	for m := 0; m < s.Members; m++ {
 		g := &stack.Goroutine{ID: firstID + m}
 		g.State = s.State
@@ -153,7 +157,7 @@ func c13Universe(size int) []sigSpec {
 	for _, arg := range []uint64{1, 2} {
 		for _, state := range []string{"chan send", "select"} {
 			for _, locked := range []bool{false, true} {
-				add(sigSpec{Frames: []frameSpec{{Loc: stack.GoMod, Fn: "Qq", Dir: "d/x.go", Line: 10, Arg: arg}}, Locked: locked, State: state})
+				add(sigSpec{Frames: []frameSpec{{Loc: stack.GoMod, Fn: "Qq", Dir: "d/x.go", Line: 10, Arg: arg}}, Locked: locked, State: state, PathID: 100000})
 			}
 		}
 	}
